@@ -27,7 +27,9 @@ CLAIM = {
             "reads its own writes (get / get_version consult the commit log before the local store), prepare reports "
             "the commit log, commit applies exactly the log through local.put_batch and nothing else writes the local "
             "store inside a transaction; (R16.4) the on-disk store rebuilds its version cache from every table entry "
-            "at open (no entry, tombstones included, is skipped) and get_version answers from that cache. Does not "
+            "at open (no entry, tombstones included, is skipped) and get_version answers from that cache; (R16.5) the "
+            "second batch entry point put_batch_unlogged (trait default, cloud override, persister wrapper) hands the "
+            "caller's whole batch, element for element, to one put_batch and writes no key on its own. Does not "
             "decide agreement over arbitrary request sequences nor reopen equality of contents.",
     "note": "redb transaction semantics (commit/abort) trusted by name; MemoryKVVStore BTreeMap semantics",
     "technique": "static analysis: sibling agreement of guard scenarios across implementations + failure atomicity + loop must-pass",
@@ -41,6 +43,7 @@ def run(ctx):
     r162(ctx)
     r163(ctx)
     r164(ctx)
+    r165(ctx)
 
 
 def _store_writes(fv, b, backend):
@@ -512,3 +515,61 @@ def r164(ctx):
     d_ok = any(c.callee and c.callee.name.endswith("::from_be_bytes") for bi, c in db.calls())
     ctx.ob("R16.4", e_ok and d_ok, "redb/vv-codec", "version prefix encoding and decoding disagree (be bytes)", where=f"{eb.file}:{eb.line}",
            sample="to_be_bytes / from_be_bytes")
+
+
+# ------------------------------------------------------------------ R16.5
+UNLOGGED = [f"{VP}KVVStore::put_batch_unlogged", f"{BACKENDS['cloud']}::put_batch_unlogged",
+            f"<{VP}KVVPersister<S, F> as lightning_signer::persist::Persist>::put_batch_unlogged"]
+ELEMENTWISE = ("into_iter", "map", "collect", "from_vec", "into_vec", "iter", "cloned")
+SINGLE_KEY = ("KVVStore::put", "KVVStore::put_with_version", "KVVStore::delete")
+
+
+def _whole_batch(e, param):
+    """the expression is the batch parameter itself, or an element-for-element conversion of it"""
+    e = peel(e)
+    seen_param = False
+    for x in subexprs(e):
+        if x[0] == "param":
+            if x[1] != param:
+                return False
+            seen_param = True
+        elif x[0] == "call":
+            if x[1].rsplit("::", 1)[-1] not in ELEMENTWISE:
+                return False
+        elif x[0] in ("var",):
+            return False
+    return seen_param
+
+
+def r165(ctx, rid="R16.5", fns=None):
+    ctx.rule(rid, "put_batch_unlogged hands the caller's whole batch to one atomic put_batch")
+    p = ctx.prog
+    n = 0
+    for fn in (fns or UNLOGGED):
+        b = p.fn(fn)
+        ctx.touch(b)
+        fv = fnview(ctx, b)
+        n += 1
+        batch = b.d.params[1] if b.d.params and len(b.d.params) > 1 else None
+        fwd = R.call_blocks(fv, lambda nm: nm.endswith("KVVStore::put_batch") or nm.endswith("KVVStore::put_batch_unlogged"))
+        where = f"{b.file}:{fwd[0][1]}" if fwd else f"{b.file}"
+        ctx.ob(rid, len(fwd) == 1, f"{fn}/one-forward", f"`{fn}` makes {len(fwd)} put_batch calls (expected exactly one: "
+               "the batch is applied by one atomic call)", where=where, sample="one put_batch call")
+        for bi, ln, c in fwd:
+            a = fv.expr(c.args[1])
+            ctx.ob(rid, batch is not None and _whole_batch(a, batch), f"{fn}/whole-batch",
+                   f"`{fn}` hands `{render(a)[:140]}` to put_batch, not the caller's batch `{batch}` element for element "
+                   "(records dropped or rebuilt before the store's version/content comparison)", where=f"{b.file}:{ln}",
+                   sample=render(a)[:100])
+        # success only through the forward call
+        cut = {bi for bi, _, _ in fwd}
+        live = fv.reach(0, cut_nodes=cut)
+        esc = [(sb, ln) for sb, ln in R.success_blocks(fv) if sb in live and sb not in cut]
+        ctx.ob(rid, not esc, f"{fn}/success-through-put_batch", f"`{fn}` can return success without put_batch "
+               f"(line {esc[0][1] if esc else ''})", where=where, sample="all success exits pass put_batch")
+        # no single-key writes (a loop of put_with_version is not atomic)
+        single = [(ln, c) for bi, ln, c in R.call_blocks_deep(ctx, fv, lambda nm: any(nm.endswith(s) for s in SINGLE_KEY))]
+        ctx.ob(rid, not single, f"{fn}/no-single-key-write", f"`{fn}` writes keys one at a time "
+               f"({single[0][1].callee.name if single and single[0][1].callee else ''} line {single[0][0] if single else ''}): a refused element "
+               "leaves the earlier ones written", where=where, sample="no put/put_with_version/delete")
+    ctx.floor(rid, "put_batch_unlogged implementations", n, len(fns or UNLOGGED))
